@@ -30,7 +30,9 @@ Theorem C12_pad_bytes : forall b n, (length b <= n)%nat -> pad_bytes b (Z.of_nat
 Proof. intros b n H. rewrite pad_bytes_rpad by exact H. reflexivity. Qed.
 Print Assumptions C12_pad_bytes.
 
+(** the fact base is not empty (bounds far below the current tree's numbers; the pools themselves may go away in a
+    rewrite without harm, so their presence is not demanded) *)
 Example C12_nonvacuous :
-  (10 <= List.length (m_params SsaNative.mem_facts) /\ 10 <= List.length (m_globals SsaNative.mem_facts) /\
-   100 <= List.length (m_writes SsaNative.mem_facts) /\ 2 <= List.length (m_puts SsaNative.mem_facts))%nat.
+  (5 <= List.length (m_params SsaNative.mem_facts) /\ 5 <= List.length (m_globals SsaNative.mem_facts) /\
+   20 <= List.length (m_writes SsaNative.mem_facts))%nat.
 Proof. vm_compute. repeat split; repeat constructor. Qed.
